@@ -132,7 +132,8 @@ def attribute_dependence(ctx, rule):
 
 
 # ----------------------------------------------------------------------
-def site_languages(ctx, rule, site, sp):
+def site_languages(ctx, rule, site, sp, lower_only=False):
+    RI = 0 if lower_only else re.I  # lower_only: the caller only ever hands lower-cased (canonicalized) hosts to the predicate
     ctx.rule(rule, "host languages (regex automata): for facebook / twitter / instagram / telegram the parsed form accepts every host that equals or is a whole-label sub-domain of a pinned site domain, and no other host containing the site's distinctive text (look-alikes: glued labels, foreign registrable domain appended); the string form, over the urls U whose host urlsplit would report (scheme / '//' / bare spelling, optional userinfo and port, any tail), accepts exactly those whose host is in that language; both forms use search/match as the predicate does")
     repo = ctx.repo
     D = sp["domains"]
@@ -171,7 +172,7 @@ def site_languages(ctx, rule, site, sp):
         REFU = A.regex(urls(REF_HL), re.I, "fullmatch")
         NEARU = A.regex(r"[^\n]*(?:%s)[^\n]*" % sp["near"], re.I, "fullmatch")
         # REFU must be inside U: hosts of REF are hosts
-        w = A.subset(REFU, sl)
+        w = A.subset(A.regex(urls(REF_HL), RI, "fullmatch") if lower_only else REFU, sl)
         ctx.ob(rule, "%s/string-form/accepts-urls-on-site-hosts" % site, w is None,
                "%s(%r) is False although the url's host is a %s host (the parsed form answers True)" % (predn, w, site), m.site(repo.const_node(m, sname)), witness=w)
         w = A.subset(A.inter(A.inter(sl, U), NEARU), REFU)
